@@ -5,7 +5,8 @@ CONSTANTS
   BaseSeq <- BasesQuick
   WrapSeq <- WrapsAll
   RenSeq <- RensMC
-  DocSet = {FALSE}
+  DocSet = {""}
+  IntFull = FALSE
   Family = "all"
   MaxFields = 2
   MaxDepth = 3
